@@ -201,6 +201,7 @@ def nameOf : EncData → Option Nat
 def pIn : P (Store × In)
   | "v1" :: "good" :: r => do let (e, r) ← pNat r; pure ((fun _ => .none, .v1 (.good e)), r)
   | "v1" :: "wronglen" :: r => do let (n, r) ← pNat r; pure ((fun _ => .none, .v1 (.wrongLen n)), r)
+  | "v1" :: "loworder" :: r => pure ((fun _ => .none, .v1 .lowOrder), r)
   | "v3" :: r => do
     let (d, r) ← pEnc r
     let (en, r) ← pEntry r
